@@ -298,6 +298,7 @@ var c15Alphabets = [][]*hx.Spec{
 	{hx.SInt(0), hx.SInt(1), hx.SInt(2)},
 	{hx.SStr("a"), hx.SStr("b"), hx.SStr("B")},
 	{hx.SFloat(0.5), hx.SFloat(1.5), hx.SFloat(2)},
+	{hx.SInt(1), hx.SFloat(1), hx.SInt(2), hx.SFloat(0.5)}, // equal values of different numeric kinds
 }
 
 var c15Filters = []string{"sort", "reverse", "uniq", "compact", "first", "last", "size", "join", "concat"}
